@@ -10,6 +10,8 @@
 #include <rapidcheck.h>
 #include <z3.h>
 #include <iostream>
+#include <algorithm>
+#include <map>
 #include <set>
 #include <sstream>
 
@@ -53,6 +55,7 @@ struct Env {
         Z3_set_param_value(cfg, "timeout", "4000");
         z3 = Z3_mk_context(cfg);
         Z3_del_config(cfg);
+        Z3_eval_smtlib2_string(z3, "(set-option :timeout 3000)");
         Z3_eval_smtlib2_string(z3, decls.c_str());
     }
     // "unsat" | "sat" | other
@@ -93,6 +96,7 @@ static T constant(Src & s, Srt srt) {
 
 static const char * lastOp = "";
 static std::string lastRef;
+static std::vector<PTRef> lastArgs;
 
 // builds a term of sort srt; at depth 0 leaves. `top` = record the reference text of the outermost constructor call
 static T build(Src & s, Srt srt, int depth, bool top, bool intEmphasis);
@@ -122,7 +126,8 @@ static T build(Src & s, Srt srt, int depth, bool top, bool intEmphasis) {
         if (!top) return;
         lastOp = op;
         std::string r = std::string("(") + op;
-        for (auto const & x : a) r += " " + str(x.tr);
+        lastArgs.clear();
+        for (auto const & x : a) { r += " " + str(x.tr); lastArgs.push_back(x.tr); }
         lastRef = r + ")";
     };
     auto args = [&](Srt as, int n) { for (int k = 0; k < n; ++k) a.push_back(arg(s, as, depth - 1, a, intEmphasis)); };
@@ -214,6 +219,106 @@ static bool checkCase(std::vector<uint32_t> const & words, bool intEmphasis, boo
         return false;
     }
     if (count) stats.classes[r.find("error") != std::string::npos ? "z3-error" : "z3-unknown"]++;
+    return true;
+}
+
+// ---- C28: hash-consing -----------------------------------------------------------------------------------------
+static PTRef applyOp(std::string const & op, std::vector<PTRef> const & a) {
+    ArithLogic & L = env->logic;
+    vec<PTRef> v; for (auto x : a) v.push(x);
+    if (op == "and") return L.mkAnd(std::move(v));
+    if (op == "or") return L.mkOr(std::move(v));
+    if (op == "not") return L.mkNot(a[0]);
+    if (op == "xor") return L.mkXor(a[0], a[1]);
+    if (op == "=>") return L.mkImpl(a[0], a[1]);
+    if (op == "ite") return L.mkIte(a[0], a[1], a[2]);
+    if (op == "=") return L.mkEq(a[0], a[1]);
+    if (op == "distinct") return L.mkDistinct(std::move(v));
+    if (op == "<=") return a.size() == 2 ? L.mkLeq(a[0], a[1]) : L.mkLeq(v);
+    if (op == "<") return L.mkLt(a[0], a[1]);
+    if (op == ">=") return L.mkGeq(a[0], a[1]);
+    if (op == ">") return L.mkGt(a[0], a[1]);
+    if (op == "+") return L.mkPlus(std::move(v));
+    if (op == "-") return a.size() == 1 ? L.mkNeg(a[0]) : L.mkMinus(a[0], a[1]);
+    if (op == "*") return L.mkTimes(a[0], a[1]);
+    if (op == "/") return L.mkRealDiv(a[0], a[1]);
+    if (op == "div") return L.mkIntDiv(a[0], a[1]);
+    if (op == "mod") return L.mkMod(a[0], a[1]);
+    if (op == "select") return L.mkSelect({a[0], a[1]});
+    if (op == "store") return L.mkStore({a[0], a[1], a[2]});
+    if (op == "f") return L.mkUninterpFun(env->f, {a[0]});
+    if (op == "g") return L.mkUninterpFun(env->g, {a[0]});
+    if (op == "p") return L.mkUninterpFun(env->p, {a[0], a[1]});
+    return PTRef_Undef;
+}
+
+// constructors that normalise the argument order (Bool-sorted = and xor go through the Boolean-operator branch of mkFun,
+// which keeps the given order, so the property does not cover them)
+static bool commutative(std::string const & op, std::vector<PTRef> const & args) {
+    bool boolArgs = !args.empty() && env->logic.hasSortBool(args[0]);
+    if (op == "=" || op == "distinct") return !boolArgs;
+    return op == "and" || op == "or" || op == "+" || op == "*";
+}
+
+static std::map<std::string, PTRef> * printed;
+
+static bool registerTerm(PTRef root) {
+    ArithLogic & L = env->logic;
+    std::vector<PTRef> todo{root};
+    std::set<uint32_t> seen;
+    while (!todo.empty()) {
+        PTRef t = todo.back(); todo.pop_back();
+        if (!seen.insert(t.x).second) continue;
+        Pterm const & pt = L.getPterm(t);
+        std::string key = L.termToSMT2String(t) + " : " + L.sortToString(L.getSortRef(t));
+        auto it = printed->find(key);
+        if (it == printed->end()) (*printed)[key] = t;
+        else if (it->second != t) { failure = "two different term identities print as " + key; return false; }
+        for (int i = 0; i < pt.size(); ++i) {
+            if (!(L.getPterm(pt[i]).getId().x < pt.getId().x && pt[i].x < t.x)) { failure = "subterm created after its parent: " + key + " child " + L.termToSMT2String(pt[i]) + " ids " + std::to_string(L.getPterm(pt[i]).getId().x) + " >= " + std::to_string(pt.getId().x) + " refs " + std::to_string(pt[i].x) + " vs " + std::to_string(t.x); return false; }
+            todo.push_back(pt[i]);
+        }
+    }
+    return true;
+}
+
+static bool hashconsCase(std::vector<uint32_t> const & words, bool count) {
+    Src s{words};
+    std::map<std::string, PTRef> pr;
+    printed = &pr;
+    int ncalls = 2 + s.below(10);
+    bool reconstructed = false, permuted = false;
+    struct Call { std::string op; std::vector<PTRef> args; PTRef res; };
+    std::vector<Call> calls;
+    for (int c = 0; c < ncalls; ++c) {
+        Srt srt = (Srt)s.below(NS);
+        lastRef.clear(); lastArgs.clear();
+        T res;
+        try { res = build(s, srt, 1 + s.below(2), true, false); } catch (...) { continue; }
+        if (count) stats.evaluations++;
+        if (lastRef.empty()) continue;
+        calls.push_back({lastOp, lastArgs, res.tr});
+        if (!registerTerm(res.tr)) return false;
+    }
+    // same constructor + same argument identities -> same identity; permuted arguments of commutative constructors too
+    for (auto const & c : calls) {
+        PTRef again;
+        try { again = applyOp(c.op, c.args); } catch (...) { failure = "re-construction threw for (" + c.op + " ...)"; return false; }
+        if (again == PTRef_Undef) continue;
+        reconstructed = true;
+        if (again != c.res) { failure = "same call twice gives different identities: (" + c.op + " ...) " + str(c.res) + " vs " + str(again); return false; }
+        if (commutative(c.op, c.args) && c.args.size() >= 2) {
+            std::vector<PTRef> p = c.args;
+            std::rotate(p.begin(), p.begin() + 1 + s.below(p.size() - 1), p.end());
+            if (s.below(3) == 0) std::reverse(p.begin(), p.end());
+            PTRef q;
+            try { q = applyOp(c.op, p); } catch (...) { failure = "permuted re-construction threw for (" + c.op + " ...)"; return false; }
+            if (p != c.args) permuted = true;
+            if (q != c.res) { failure = "permuted arguments of commutative (" + c.op + " ...) give another identity: " + str(c.res) + " vs " + str(q); return false; }
+            if (!registerTerm(q)) return false;
+        }
+    }
+    if (count && reconstructed && permuted) { stats.nontrivial++; if (stats.samples.size() < 3 && !calls.empty()) stats.sample(std::to_string(calls.size()) + " calls, last: " + str(calls.back().res)); }
     return true;
 }
 
@@ -311,7 +416,7 @@ int main(int argc, char ** argv) {
         std::string m; in >> m;
         std::vector<uint32_t> w; uint32_t x;
         while (in >> x) w.push_back(x);
-        bool ok = m == "rewrite" ? divmodRewrite(w, true) : checkCase(w, m == "round", true);
+        bool ok = m == "rewrite" ? divmodRewrite(w, true) : m == "hc" ? hashconsCase(w, true) : checkCase(w, m == "round", true);
         std::printf(ok ? "OK\n" : "FAIL %s\n", failure.c_str());
         return ok ? 0 : 1;
     }
@@ -321,6 +426,15 @@ int main(int argc, char ** argv) {
         stats.dump(statsPath);
         std::printf("consts done: %ld failures\n", f);
         return f ? 1 : 0;
+    }
+    if (mode == "hc") {
+        bool okh = rc::check("equal terms share one identity and subterms come first", [&]() {
+            auto w = *rc::gen::resize(100, rc::gen::container<std::vector<uint32_t>>(rc::gen::inRange<uint32_t>(0, 1000003)));
+            if (w.size() < 12) w.resize(12, 5);
+            if (!hashconsCase(w, true)) { std::ostringstream o; o << "hc"; for (auto x : w) o << " " << x; o << "\n"; writeFile(failPath, o.str()); RC_FAIL(failure); }
+        });
+        stats.dump(statsPath);
+        return okh ? 0 : 1;
     }
     bool ie = mode == "round";
     bool ok = rc::check(ie ? "integer relations / div / mod constructors and div-mod elimination are exact" : "term constructors return equivalent terms", [&]() {
